@@ -1198,9 +1198,12 @@ func (e *EvalEnv) callGo(fn *ssa.Function, pre []Val, argExprs []ast.Expr) (Val,
 	}
 	st := e.state().Clone()
 	saved := e.X.Opts.NoPanicObl
+	savedStack := e.X.stack
+	e.X.stack = nil // a contract may mention the function under verification itself (relational clauses)
 	e.X.Opts.NoPanicObl = true
 	res, err := e.X.CallFunction(fn, args, st, "spec>", 1)
 	e.X.Opts.NoPanicObl = saved
+	e.X.stack = savedStack
 	if err != nil {
 		return nil, fmt.Errorf("calling %s in a contract: %v", fn.Name(), err)
 	}
